@@ -66,6 +66,9 @@ type specJob struct {
 	prof  profile
 	maxL  int
 	heavy bool // only in thorough
+	// long: the inputs are the listed long block-built strings instead of every string up to maxL, and a fresh
+	// Regexp is compiled for every input (the backtracking stack of a pooled runner only grows once)
+	long [][]rune
 }
 
 // specCompare checks one compiled pattern against the model on every input and offset.
@@ -131,7 +134,7 @@ func runSpecCheck(c *Ctx, rtl bool) {
 		base = "R"
 	}
 	add := func(fam string, pats []Pat, o optSet, pr profile, L int, heavy bool) {
-		jobs = append(jobs, specJob{fam, pats, base + o, pr, L, heavy})
+		jobs = append(jobs, specJob{fam: fam, pats: pats, opts: base + o, prof: pr, maxL: L, heavy: heavy})
 	}
 	// main breadth
 	add("CORE-S<=5", coreS5, "", profP0, 4, false)
@@ -162,6 +165,7 @@ func runSpecCheck(c *Ctx, rtl bool) {
 	add("ALT", altL, "i", profP0i, 4, false)
 	add("LOOP3", loop3Family(false), "", profP0, 6, false)
 	add("ALTB", altBranchFamily(false), "", profP0, 4, false)
+	jobs = append(jobs, specJob{fam: "GROW (long inputs, fresh Regexp per input)", pats: growFamily(), opts: base, prof: profP0, maxL: 26, long: growInputs()})
 	add("LOOP", loopF, "", profP0, 5, false)
 	add("LOOK", lookF, "", profP0, 4, false)
 	add("ANCH<=4", anch, "", profile{name: "ANCH {a,\\n,c}", m: map[rune]rune{'b': '\n'}, input: []rune{'a', 'b', 'c'}}, 4, false)
@@ -223,7 +227,10 @@ func runSpecCheck(c *Ctx, rtl bool) {
 			continue
 		}
 		fs := c.Fam(famName)
-		rawInputs := allStrings(job.prof.input, job.maxL)
+		rawInputs := job.long
+		if rawInputs == nil {
+			rawInputs = allStrings(job.prof.input, job.maxL)
+		}
 		inputs := make([][]rune, len(rawInputs))
 		for i, in := range rawInputs {
 			inputs[i] = renameRunes(in, job.prof.m)
@@ -263,7 +270,22 @@ func runSpecCheck(c *Ctx, rtl bool) {
 				c.Report(Violation{Leg: "compile", Key: "compile|" + string(job.opts) + "|" + src, Pattern: src, Options: string(job.opts), Detail: "pattern of the fragment does not compile: " + err.Error()})
 				return
 			}
-			n, mt, bad := specCompare(re, ast, ng, so, inputs, nil)
+			var n, mt int64
+			var bad *Violation
+			if job.long != nil {
+				for _, in := range inputs {
+					re1, _ := regexp2.Compile(src, copts...)
+					n1, m1, b1 := specCompare(re1, ast, ng, so, [][]rune{in}, nil)
+					n += n1
+					mt += m1
+					if b1 != nil {
+						bad = b1
+						break
+					}
+				}
+			} else {
+				n, mt, bad = specCompare(re, ast, ng, so, inputs, nil)
+			}
 			atomic.AddInt64(&fp, 1)
 			atomic.AddInt64(&fe, n)
 			atomic.AddInt64(&fm, mt)
